@@ -635,6 +635,11 @@ class CallMixin:
         return None
 
     def x_builtins_len(self, args, kw, fr, node):
+        if args and args[0].kind == "cls":
+            ci = self.tree.classes.get(args[0].args[0])
+            if ci is not None and any(b.split(".")[-1] in ("Enum", "IntEnum") for b in self.tree.external_bases(ci)):
+                members = [n for n in ci.class_attrs if not n.startswith("_")]
+                return const(len(members))
         if args and args[0].kind in ("tuple", "list", "dict") and not any(
                 x.kind == "star" for x in args[0].args[0]):
             return const(len(args[0].args[0]))
